@@ -72,7 +72,9 @@ RULE = ("weight builders BuildWeightsGamma / BuildWeightsDirichlet for every len
         "shape in {0.01, 0.1, 0.5, 0.99, 1, 1.01, 2, 10, 100} and with mixed shapes, 3..40 parameters, factors 1 / n / 1000.5; invalid parameter vectors "
         "(<= 2 entries, zero, negative, NaN, +Inf entries); Dirichlet1; 40..200 successive stats.Gamma draws per shape (three sampler branches); "
         "DiscreteGamma for shapes on a grid of [0.01, 100] x category counts 2..32; IncompleteGamma on ascending x grids (0, subnormal, 1e-300 .. 1e100, "
-        "fine grids around the branch switch x = max(1, alpha)) for alpha in [0.01, 101], plus single huge x; non-trivial = valid parameters in the quantifier")
+        "fine grids around the branch switch x = max(1, alpha)) for alpha in [0.01, 101], plus single huge x; command line `goalign build weightboot [-n k] --seed s` "
+        "on the built binary (lengths 1..300, 0..4 replicates from the one stream): every printed weight within the rounding of `%f` (5.1e-7) of the exact "
+        "replay of BuildWeightsDirichlet from the seed, the layout (tabs, one line per replicate) exactly; non-trivial = valid parameters in the quantifier")
 
 SHAPES = [0.01, 0.1, 0.5, 0.99, 1.0, 1.01, 2.0, 10.0, 100.0]
 MAXDEV = {"sampler": 0.0, "numeric": 0.0}
